@@ -143,6 +143,11 @@ def run_shard(spec):
             if not isinstance(a, (dict, list, str)):
                 continue
             b = G.rand_edit(r, a)
+            if beyond_js_integers(a) or beyond_js_integers(b):
+                # JSON leaves the range of exactly representable integers to the implementation: JavaScript has doubles
+                # only (2**53 + 1 does not exist there) - not a difference between nbdime's two implementations
+                col.count("generic_pairs_with_integers_beyond_2**53_not_sent_to_the_browser_side")
+                continue
             try:
                 d = nbd.diff(a, b)
                 p = nbd.patch(a, d)
@@ -154,7 +159,7 @@ def run_shard(spec):
             cls = ["minor_diff", "exec_count", None, "same_insert_edit_below", "same_line", None][k % 6]
             if k % 12 == 2:
                 # the classes whose decisions use the path-relative actions (clear / remove / take_max / clear_all)
-                cls = r.choice(["retype", "both_rerun", "transient_meta_conflict", "both_rerun", "retype"])
+                cls = r.choice(["retype", "both_rerun", "transient_meta_conflict", "both_rerun", "retype", "slash_keys", "slash_keys"])
             cls, b, l, rm, info, waste = valid_triple(gen, cls=cls, minor=(5 if (k % 6 == 5 or cls == "retype") else None))
             if cls is None:
                 continue
@@ -278,6 +283,20 @@ def run_shard(spec):
         c = cases[0]
         col.sample({"kind": c["kind"], "diff_or_decisions_head": json.dumps(c.get("diff") or c.get("decisions"))[:500], "node": node})
     return col.result()
+
+
+def beyond_js_integers(x):
+    if isinstance(x, bool):
+        return False
+    if isinstance(x, int):
+        return abs(x) > 2 ** 53
+    if isinstance(x, float):
+        return abs(x) >= 2 ** 53 and x == int(x) and False
+    if isinstance(x, dict):
+        return any(beyond_js_integers(v) for v in x.values())
+    if isinstance(x, list):
+        return any(beyond_js_integers(v) for v in x)
+    return False
 
 
 def classify_patch_error(err, exo, where="patch"):
